@@ -2,6 +2,8 @@ package nfa
 
 import (
 	"regexp/syntax"
+	"unicode"
+	"unicode/utf8"
 )
 
 // FirstByteSet represents the set of bytes that can start a match.
@@ -77,22 +79,44 @@ func extractFirstBytesRecursive(re *syntax.Regexp, result *FirstByteSet, depth i
 			return false // Empty literal matches empty string
 		}
 		r := re.Rune[0]
-		if r > 255 {
+		if r >= utf8.RuneSelf {
 			return false // Non-ASCII, too complex
 		}
-		result.bytes[byte(r)] = true
-		result.count++
+		if re.Flags&syntax.FoldCase != 0 {
+			// Case-insensitive literal: every rune of the fold orbit can start a match.
+			for f := unicode.SimpleFold(r); f != r; f = unicode.SimpleFold(f) {
+				if f >= utf8.RuneSelf {
+					return false // e.g. k -> U+212A KELVIN SIGN: not a single byte
+				}
+				if !result.bytes[byte(f)] {
+					result.bytes[byte(f)] = true
+					result.count++
+				}
+			}
+		}
+		if !result.bytes[byte(r)] {
+			result.bytes[byte(r)] = true
+			result.count++
+		}
 		return true
 
 	case syntax.OpCharClass:
 		// Character class: add all bytes in the class
 		for i := 0; i < len(re.Rune); i += 2 {
 			lo, hi := re.Rune[i], re.Rune[i+1]
-			if hi > 255 {
-				hi = 255 // Truncate to ASCII
+			if hi >= utf8.RuneSelf {
+				// A non-ASCII member starts with some byte >= 0x80 (and invalid
+				// bytes behave as U+FFFD): admit every such byte.
+				for b := 0x80; b <= 0xFF; b++ {
+					if !result.bytes[b] {
+						result.bytes[b] = true
+						result.count++
+					}
+				}
+				hi = utf8.RuneSelf - 1
 			}
-			if lo > 255 {
-				continue // Skip non-ASCII ranges
+			if lo >= utf8.RuneSelf {
+				continue
 			}
 			for r := lo; r <= hi; r++ {
 				if !result.bytes[byte(r)] {
